@@ -287,6 +287,11 @@ def rand_history(rng, hid, transport, nsteps, ntids=8, maxrto=60000, us=False, c
                           "integ": rng.choice(["none", "k1", "k2", "corrupt"]), "alg": rng.choice(ALGS)})
         elif r < (0.66 if len(addrs) <= 6 else 0.80):
             steps.append({"a": "recv", "cls": rng.choice(["request", "indication"]), "tid": t, "from": rng.choice(addrs)})
+            if rng.random() < 0.5:
+                # the same request again from another address (a NAT rebinding between retransmissions), answered there
+                other = rng.choice(addrs)
+                steps.append({"a": "recv", "cls": "request", "tid": t, "from": other})
+                steps.append({"a": "send", "cls": rng.choice(["success", "error"]), "to": other, "pay": "p1", "tid": t})
         elif r < 0.78:
             steps.append({"a": "poll"})
         elif r < 0.82:
@@ -301,8 +306,10 @@ def rand_history(rng, hid, transport, nsteps, ntids=8, maxrto=60000, us=False, c
         elif r < 0.97:
             steps.append({"a": "set_local", "key": rng.choice(keys)})
         else:
-            steps.append({"a": "send", "cls": rng.choice(["indication", "success", "error"]), "to": rng.choice(addrs),
-                          "pay": rng.choice(["p1", "p2"])})
+            st = {"a": "send", "cls": rng.choice(["indication", "success", "error"]), "to": rng.choice(addrs), "pay": rng.choice(["p1", "p2"])}
+            if rng.random() < 0.6:
+                st["tid"] = t        # e.g. the answer to a request that came in with this id - possibly from several addresses
+            steps.append(st)
     if us:
         # always configure (the default schedule of 39.5 s would not fit 32-bit microseconds for long)
         fixed = []
